@@ -285,7 +285,7 @@ def run(ctx):
             return ("error", classify(e, forward=True))
 
     # ------------------------------------------------------------------ Activation
-    n_act = 60 if quick else 600
+    n_act = 120 if quick else 1200
     modes = ["zero", "mix", "mix", "big", "tiny", "rand"]
     for it in range(n_act):
         v = rand_irreps(rng)
@@ -368,7 +368,7 @@ def run(ctx):
     ctx.notes["grid_witness"] = wit_report
 
     # ------------------------------------------------------------------ Gate
-    n_gate = 45 if quick else 400
+    n_gate = 90 if quick else 800
 
     def gate_cfg(it):
         sc = rand_irreps(rng, maxlen=3, scalars_only=True, allow_zero=(it % 5 == 0))
@@ -389,6 +389,10 @@ def run(ctx):
             gates[0] = (gates[0][0], 1, gates[0][2])  # non scalar gate
         elif r < 0.16:
             sc = sc + [(1, 2, 1)]  # non scalar "scalars"
+        elif r < 0.19:
+            gates, gated = [(0, 0, 1)], [(0, rng.choice([0, 1]), 1)]  # all multiplicities zero: Irreps.lmax raises
+        elif r < 0.21:
+            sc = [(0, 0, -1)]  # same, on the scalars
         if it == 0:
             sc, gates, gated = [], [], []
         if it == 1:
@@ -431,8 +435,9 @@ def run(ctx):
             S.add("GATE", head + "|" + enc_floats(x), ("Gate-badlen",) + desc[1:], rc, rf)
 
     # ------------------------------------------------------------------ NormActivation
-    n_na = 40 if quick else 400
-    na_funcs = ["sigmoid", "tanh", "relu", "abs", "sq", "exp", "silu", "cos"]
+    n_na = 80 if quick else 800
+    # no periodic function here: the argument is a computed norm, and cos(1e150 (1 + 1 ulp)) is unrelated to cos(1e150)
+    na_funcs = ["sigmoid", "tanh", "relu", "abs", "sq", "exp", "silu"]
     for it in range(n_na):
         v = rand_irreps(rng)
         if it == 0:
@@ -488,7 +493,7 @@ def run(ctx):
         eq_jobs.append(("NACT", ("NormActivation-surgery", v, fn), m, v, [v], 1e-8))
 
     # ------------------------------------------------------------------ Norm
-    for it in range(25 if quick else 250):
+    for it in range(40 if quick else 400):
         v = rand_irreps(rng)
         if it == 0:
             v = []
@@ -515,9 +520,9 @@ def run(ctx):
     def enc_ins(ins):
         return "/".join((",".join(str(i) for i in t) if t else "_") for t in ins)
 
-    for it in range(40 if quick else 400):
+    for it in range(80 if quick else 800):
         v = rand_irreps(rng, maxlen=5)
-        k = rng.randint(0, 3)
+        k = rng.choice([0, 1, 1, 2, 2, 3])
         ins, outs = [], []
         for _ in range(k):
             if v and rng.random() < 0.15:
@@ -534,7 +539,7 @@ def run(ctx):
         elif r < 0.14:
             kind = "count-outs"
             outs = outs + [[]]
-        elif ins and ins[0] and r < 0.22:
+        elif ins and ins[0] and ins[0] != tuple(range(len(v))) and r < 0.22:
             kind = "index"
             ins[0] = ins[0][:-1] + (len(v) + rng.randint(0, 2),)
         elif outs and outs[0] and r < 0.36:
@@ -701,9 +706,16 @@ def run(ctx):
         for inv in (False, True):
             R = rand_group(inv)
             Din = Dmat(irr_in, R)
-            with torch.no_grad():
-                y1 = m(x @ Din.T)
-                y0 = m(x)
+            try:
+                with torch.no_grad():
+                    y1 = m(x @ Din.T)
+                    y0 = m(x)
+            except Exception as e:  # noqa: BLE001  a forward that raises on a valid input is a failure of the oracle
+                n_eq += 1
+                eq_fail.setdefault(stream, []).append({"desc": repr(desc), "inversion": inv,
+                                                       "raised": f"{type(e).__name__}: {str(e)[:200]}",
+                                                       "x": x.tolist()})
+                continue
             if not isinstance(y1, tuple):
                 y1, y0 = (y1,), (y0,)
             for a, b, irr in zip(y1, y0, irr_outs):
